@@ -185,7 +185,8 @@ pub fn apply(t: &Tables, live: &mut Live, op: &Value) -> Result<bool, String> {
     let v = t.value_of(&op["v"]);
     let api_name = match name.as_str() {
         "set" => "Paragraph::set", "insert" => "Paragraph::insert", "remove" => "Paragraph::remove", "rename" => "Paragraph::rename",
-        "add_para" => "Deb822::add_paragraph", "insert_para" => "Deb822::insert_paragraph", "remove_para" => "Deb822::remove_paragraph", _ => "?" };
+        "add_para" => "Deb822::add_paragraph", "insert_para" => "Deb822::insert_paragraph", "remove_para" => "Deb822::remove_paragraph",
+        "wrap" => "Deb822::wrap_and_sort", _ => "?" };
     match name.as_str() {
         "set" | "insert" | "remove" | "rename" => {
             let mut h = match &live.obj {
@@ -198,6 +199,13 @@ pub fn apply(t: &Tables, live: &mut Live, op: &Value) -> Result<bool, String> {
                 "remove" => { h.remove(&k); false }
                 _ => h.rename(&k, &k2),
             })
+        }
+        "wrap" => {
+            // a NEW document is returned; go on with it (handles to the old tree are dropped)
+            let newdoc = match &live.obj { Obj::Doc(d) => guarded(api_name, || d.wrap_and_sort(None, None))?, Obj::Solo(_) => return Err("wrap on solo".into()) };
+            live.early = newdoc.paragraphs().enumerate().map(|(i, p)| (p, Some(i))).collect();
+            live.obj = Obj::Doc(newdoc);
+            Ok(false)
         }
         _ => {
             let n = live.paras().len();
@@ -381,7 +389,8 @@ pub fn random_op(rng: &mut StdRng, t: &mut Tables, obs: &Value, solo: bool) -> V
             _ => mk("rename", p, k, k2, vec![], 0),
         }
     } else {
-        match choice % 3 {
+        match choice % 4 {
+            3 => mk("wrap", 0, 0, 0, vec![], 0),
             0 => mk("add_para", 0, 0, 0, vec![], 0),
             1 => mk("insert_para", 0, 0, 0, vec![], rng.gen_range(0..=n + 1)),
             _ => mk("remove_para", 0, 0, 0, vec![], rng.gen_range(0..=n + 1)),
